@@ -9,6 +9,7 @@ Parser half:
   (c) the events (both back-ends) and tokens of the repository's data corpus and of seeded mutations of it are judged by
       TLC against Trace_Events.tla / Trace_Tokens.tla, including line/column = Pos(input, index) for the Python pipeline.
 """
+import itertools
 import glob, os, random, re
 from .. import tlc, mbt, trace
 from ..common import Verdict, use_repo, REPO, SEED
@@ -315,6 +316,72 @@ def corpus_work(items):
     return traces, meta, ttraces
 
 
+# ------------------------------------------------------------------ every short string over structural focus alphabets
+ENUM = {'quick': [('flow', '[]a: ,', 7, 5), ('block', '-a: \n?', 6, 5), ('mixed', '{}[]a:, ?-\n', 4, 4)],
+        'thorough': [('flow', '[]a: ,', 8, 7), ('block', '-a: \n?', 7, 7), ('mixed', '{}[]a:, ?-\n', 5, 5), ('quote', '"a: \n\'#', 6, 6)]}
+
+
+def enum_strings(tier):
+    """(family, alphabet, n) -> all strings of length 1..n; split into prefix classes so that workers regenerate their share"""
+    jobs = []
+    for fam, alpha, ntok, nev in ENUM[tier]:
+        for first2 in itertools.product(alpha, repeat=2):
+            jobs.append((fam, alpha, ntok, nev, ''.join(first2)))
+        jobs.append((fam, alpha, 1, 1, ''))                 # the strings of length 1
+    return jobs
+
+
+def enum_work(jobs):
+    """tokens of every string (pure-Python scanner), events of the shorter ones (pure-Python parser); str input only:
+    delivery forms are C07's business, the C back-end is held to less by the statement and is covered by the corpus part"""
+    yaml = use_repo()
+    ttraces, etraces, tmeta, emeta = [], [], [], []
+    for fam, alpha, ntok, nev, pre in jobs:
+        if pre == '':
+            texts = list(alpha)
+        else:
+            texts = [pre] + [pre + ''.join(t) for n in range(1, ntok - 1) for t in itertools.product(alpha, repeat=n)]
+        for text in texts:
+            breaks, boms = line_structure(text)
+            toks, outcome, errm = [], 'ok', []
+            try:
+                for tk in yaml.scan(text, Loader=yaml.Loader):
+                    s, e = tk.start_mark, tk.end_mark
+                    kind = type(tk).__name__[:-5]
+                    chk, val, span = False, '', ''
+                    if kind == 'Scalar' and tk.plain and s.line == e.line:
+                        chk, val, span = True, tk.value, text[s.index:e.index]
+                    toks.append({'k': kind, 's': s.index, 'e': e.index, 'sl': s.line, 'sc': s.column, 'el': e.line,
+                                 'ec': e.column, 'chk': chk, 'val': val, 'span': span})
+            except yaml.YAMLError as ex:
+                outcome = 'yamlerror'
+                for m in (getattr(ex, 'context_mark', None), getattr(ex, 'problem_mark', None)):
+                    if m is not None:
+                        errm.append({'i': m.index, 'l': m.line, 'c': m.column})
+            except Exception:
+                outcome = 'exception'
+            ttraces.append({'len': len(text), 'outcome': outcome, 'tokens': toks, 'errmarks': errm, 'exact': True,
+                            'breaks': breaks, 'boms': boms})
+            tmeta.append(fam + ':' + text)
+            if len(text) > nev:
+                continue
+            evs, outcome, errm = [], 'ok', []
+            try:
+                for ev in yaml.parse(text, Loader=yaml.Loader):
+                    s, e = ev.start_mark, ev.end_mark
+                    evs.append([type(ev).__name__[:-5], s.index, e.index, s.line, s.column, e.line, e.column])
+            except yaml.YAMLError as ex:
+                outcome = 'yamlerror'
+                for m in (getattr(ex, 'context_mark', None), getattr(ex, 'problem_mark', None)):
+                    if m is not None:
+                        errm.append([m.index, m.line, m.column])
+            except Exception as ex:
+                outcome = 'exception:' + type(ex).__name__
+            etraces.append(ev_trace(evs, outcome, errm, len(text), True, breaks, boms))
+            emeta.append(fam + ':' + text)
+    return ttraces, tmeta, etraces, emeta
+
+
 def main(tier, replay=None):
     v = Verdict('C09', tier)
     # (a) design check, lazy token choice
@@ -383,6 +450,28 @@ def main(tier, replay=None):
             v.violation({'stage': 'tokens', 'clause': why, 'backend': m['backend'], 'input': m['input'].split('~')[0]},
                         {'input': m, 'at_token': at, 'token': t['tokens'][at - 1] if 0 < at <= len(t['tokens']) else None,
                          'outcome': t['outcome'], 'errmarks': t['errmarks']})
+    # (c2) every short string over the structural focus alphabets, pure-Python scanner and parser, judged by the same modules
+    jobs = enum_strings(tier)
+    with mp.Pool(16) as pool:
+        eres = pool.map(enum_work, [jobs[i::64] for i in range(64)], chunksize=1)
+    ett = [t for r_ in eres for t in r_[0]]
+    etm = [m for r_ in eres for m in r_[1]]
+    eet = [t for r_ in eres for t in r_[2]]
+    eem = [m for r_ in eres for m in r_[3]]
+    verdicts, s6 = trace.judge('Trace_Tokens', ett, 'C09_enum_tokens', batch=40000)
+    states += s6
+    for m, t, (ok, why, at) in zip(etm, ett, verdicts):
+        if not ok:
+            v.violation({'stage': 'tokens', 'clause': why, 'backend': 'py', 'input': 'enum:' + m.split(':')[0]},
+                        {'input': m, 'at_token': at, 'tokens': [(x['k'], x['s'], x['e']) for x in t['tokens']],
+                         'outcome': t['outcome'], 'errmarks': t['errmarks']})
+    verdicts, s7 = trace.judge('Trace_Events', eet, 'C09_enum_events', batch=40000)
+    states += s7
+    for m, t, (ok, why, at) in zip(eem, eet, verdicts):
+        if not ok:
+            v.violation({'stage': 'events', 'clause': why, 'backend': 'py', 'input': 'enum:' + m.split(':')[0]},
+                        {'input': m, 'at_event': at, 'events': [(x['k'], x['s'], x['e']) for x in t['events']],
+                         'outcome': t['outcome'], 'errmarks': t['errmarks']})
     # (d) error.py: what a Mark prints (Snippet.tla / Trace_Snippet.tla) - not part of C09's statement: drift notes only
     from .. import snippet
     sn = snippet.stage(tier, 'C09_snippet')
@@ -395,8 +484,10 @@ def main(tier, replay=None):
         v.note('spec-drift C09/snippet: %d of %d marks of real errors are not what Snippet.tla computes (%s), e.g. %s'
                % (len(sn['rejected']), sn['judged'], sorted({w for w, _ in sn['rejected']}), str(sn['rejected'][0][1])[:300]))
     v.cov = {'states': states, 'transitions': trans, 'corpus_token_streams_judged': len(ttraces),
+             'enumerated_strings_token_streams_judged': len(ett), 'enumerated_strings_event_streams_judged': len(eet),
+             'enumerated_families': {f: {'alphabet': a, 'tokens_up_to': nt, 'events_up_to': ne} for f, a, nt, ne in ENUM[tier]},
              'snippet_states_replayed': sn['replayed'], 'snippet_error_marks_judged': sn['judged'],
-             'traces_validated_against_impl': len(traces) + len(ctraces) + len(ttraces) + sn['replayed'] + sn['judged'],
+             'traces_validated_against_impl': len(traces) + len(ctraces) + len(ttraces) + len(ett) + len(eet) + sn['replayed'] + sn['judged'],
              'token_sequences_replayed': tested, 'distinct_event_streams_judged': len(traces),
              'corpus_event_streams_judged': len(ctraces), 'model_outcomes': finals, 'exhaustive': True,
              'actions_fired': {a: c[1] for a, c in r.actions.items()},
